@@ -403,7 +403,7 @@ def r_forest_validators(model, rep):
     for ev in sd:
         if len(ev.value[2]) == 2 and ev.value[2][1] == var:
             for r in cx.events:
-                if r.kind == "raise" and any(gd[1] and gd[0] == ("cmp", ("!=",), (ev.value, var)) for gd in r.guards):
+                if r.kind == "raise" and any(not gd[1] and gd[0] == ("cmp", ("==",), (ev.value, var)) for gd in r.guards):
                     dup = True
     rep.ob("R-FOREST-VALIDATORS", "VariantBase.add:duplicate-id-refused", dup, site=cx.site(f.node),
            msg="" if dup else "insertion is not the insert-if-absent idiom (setdefault + raise when another variant holds the id)")
@@ -425,7 +425,7 @@ def r_forest_validators(model, rep):
                 and ev.value[2][0] == ("attr", ("param", scx.selfname), "uid"):
             d = ev.value[2][1]
             for r in scx.events:
-                if r.kind == "raise" and any(gd[1] and gd[0] == ("cmp", ("!=",), (ev.value, d)) for gd in r.guards):
+                if r.kind == "raise" and any(not gd[1] and gd[0] == ("cmp", ("==",), (ev.value, d)) for gd in r.guards):
                     ok = True
     rep.ob("R-FOREST-VALIDATORS", "Variant.serialize:duplicate-uid-refused", ok, site=scx.site(s.node),
            msg="" if ok else "Variant.serialize no longer refuses a UID that was already emitted")
